@@ -1,7 +1,10 @@
 /* C19 — the server scenario as a plain C program (for ThreadSanitizer, thorough tier):
  * one thread integrates in several reb_simulation_integrate calls, the library's server thread
  * answers, a client thread fetches /simulation `nreq` times.
- *   c19_server <whfast|whfast-unsafe|ias15|leapfrog> <port> <nreq>
+ *   c19_server <whfast|whfast-unsafe|ias15|leapfrog>[-late] <port> <nreq>
+ * "-late": the integration runs in its own thread and is entered PAUSED; the server is started from the main thread
+ * while it idles in reb_check_exit, then the simulation is resumed by writing r->status (what the space key does,
+ * server.c:353-357) — the start order of seeded change C19-d.
  * prints "done steps=<n> bodies=<k> bytes=<total>"; exit 3 = could not connect (infrastructure).
  */
 #define _GNU_SOURCE
@@ -39,9 +42,22 @@ static void* client(void* arg){
     return NULL;
 }
 
+struct job { struct reb_simulation* r; int calls; double span; };
+static void* integrate_thread(void* arg){
+    struct job* j = (struct job*)arg;
+    for (int k=1;k<=j->calls;k++){
+        reb_simulation_integrate(j->r, j->span*k);
+    }
+    return NULL;
+}
+
 int main(int argc, char** argv){
     if (argc<4) return 2;
-    const char* mode = argv[1];
+    char modebuf[64]; strncpy(modebuf, argv[1], 63); modebuf[63] = 0;
+    int late = 0;
+    char* dash = strstr(modebuf, "-late");
+    if (dash){ late = 1; *dash = 0; }
+    const char* mode = modebuf;
     g_port = atoi(argv[2]); g_nreq = atoi(argv[3]);
     struct reb_simulation* r = reb_simulation_create();
     int N = 60;
@@ -56,15 +72,29 @@ int main(int argc, char** argv){
     else if (!strcmp(mode,"whfast-unsafe")){ r->integrator = REB_INTEGRATOR_WHFAST; r->ri_whfast.safe_mode = 0; }
     else if (!strcmp(mode,"ias15")){ r->integrator = REB_INTEGRATOR_IAS15; }
     else { r->integrator = REB_INTEGRATOR_LEAPFROG; }
-    if (reb_simulation_start_server(r, g_port)!=0 || !r->server_data || r->server_data->ready!=1){
-        fprintf(stderr,"server did not start\n"); return 3;
-    }
-    pthread_t th;
-    pthread_create(&th, NULL, client, NULL);
     int calls = !strcmp(mode,"whfast-unsafe") ? 40 : 12;
     double span = !strcmp(mode,"ias15") ? 3.0 : (!strcmp(mode,"whfast-unsafe") ? 0.035 : 0.405);
-    for (int k=1;k<=calls;k++){
-        reb_simulation_integrate(r, span*k);
+    pthread_t th, it;
+    struct job j = { r, calls, span };
+    if (late){
+        r->status = REB_STATUS_PAUSED;
+        pthread_create(&it, NULL, integrate_thread, &j);
+        usleep(20000);                       // the loop now idles in reb_check_exit
+    }
+    if (reb_simulation_start_server(r, g_port)!=0 || !r->server_data){
+        fprintf(stderr,"server did not start\n"); if (late){ r->status = REB_STATUS_USER; pthread_join(it,NULL);} return 3;
+    }
+    for (int w=0; w<1500 && r->server_data->ready==0; w++) usleep(10000);
+    if (r->server_data->ready!=1){
+        fprintf(stderr,"server not ready\n"); if (late){ r->status = REB_STATUS_USER; pthread_join(it,NULL);} return 3;
+    }
+    pthread_create(&th, NULL, client, NULL);
+    if (late){
+        usleep(3000);
+        r->status = REB_STATUS_RUNNING;      // resume (server.c:356 does the same plain store)
+        pthread_join(it, NULL);
+    }else{
+        integrate_thread(&j);
     }
     __atomic_store_n(&g_stop, 1, __ATOMIC_SEQ_CST);
     pthread_join(th, NULL);
